@@ -287,3 +287,72 @@ func H17_DefaultLeak() {
 	_, err = p3.Marshal(nil, &useFlat{A: 1})
 	vrt.Assert("an instance without a flat codec rejects the flat option", err != nil)
 }
+
+// ---- the same constructed type under two tag options in one struct build
+
+type Score int
+
+type sTagPairsA struct {
+	A Score    `plenc:"1"`
+	B Score    `plenc:"2,flat"`
+	S []string `plenc:"3"`
+	P []string `plenc:"4,proto"`
+}
+
+type sTagPairsB struct { // the other order: the option is met first
+	B Score    `plenc:"1,flat"`
+	A Score    `plenc:"2"`
+	P []string `plenc:"3,proto"`
+	S []string `plenc:"4"`
+	N struct {
+		A Score    `plenc:"1"`
+		S []string `plenc:"2"`
+	} `plenc:"5"`
+}
+
+func refCounted(ss []string) []byte {
+	body := refVarint(nil, uint64(len(ss)))
+	for _, s := range ss {
+		body = refVarint(body, uint64(len(s)))
+		body = append(body, s...)
+	}
+	return body
+}
+
+// H17_TagPairs: a (type, tag option) pair selects its codec independently of
+// any other option the same type carries elsewhere in the struct being built.
+func H17_TagPairs() {
+	a, b := Score(vrt.Int("a")), Score(vrt.Int("b"))
+	vrt.Assume(vrt.And(a != 0, b != 0))
+	s0, p0 := vrt.String("s0", 1), vrt.String("p0", 1)
+	ss, ps := []string{s0, "x"}, []string{p0, "y"}
+	zz := func(buf []byte, idx int, v Score) []byte {
+		return refVarint(refTag(buf, 0, idx), refZigZag(int64(v)))
+	}
+	fl := func(buf []byte, idx int, v Score) []byte { return refVarint(refTag(buf, 0, idx), uint64(v)) }
+	protoS := func(buf []byte, idx int, v []string) []byte {
+		for _, s := range v {
+			buf = refLenField(buf, idx, []byte(s))
+		}
+		return buf
+	}
+	slice := func(buf []byte, idx int, v []string) []byte {
+		return append(refTag(buf, 3, idx), refCounted(v)...)
+	}
+	{
+		in := sTagPairsA{A: a, B: b, S: ss, P: ps}
+		d, err := plainInstance().Marshal(nil, &in)
+		vrt.Assert("marshal ok", err == nil)
+		exp := protoS(slice(fl(zz(nil, 1, a), 2, b), 3, ss), 4, ps)
+		vrt.Assert("plain option first: every field uses the codec of its own (type, option)", vrt.BytesEq(d, exp))
+	}
+	{
+		in := sTagPairsB{A: a, B: b, S: ss, P: ps}
+		in.N.A, in.N.S = a, ss
+		d, err := plainInstance().Marshal(nil, &in)
+		vrt.Assert("marshal ok", err == nil)
+		exp := slice(protoS(zz(fl(nil, 1, b), 2, a), 3, ps), 4, ss)
+		exp = refLenField(exp, 5, slice(zz(nil, 1, a), 2, ss))
+		vrt.Assert("option first: every field uses the codec of its own (type, option)", vrt.BytesEq(d, exp))
+	}
+}
